@@ -4,7 +4,7 @@ Driver for the response-shape family (C18): every array is filled with *position
 Offsets: outputs `y` 0, states `x` 1000000, inputs `u` 2000000, time 3000000.
 -/
 import CtrlVerif.Driver.Util
-import CtrlVerif.Model.Response
+import CtrlVerif.Model.History
 
 namespace CtrlVerif.Driver.Shape
 
@@ -276,6 +276,169 @@ def hKeyFr : P String := do
     let F' := if useCall then F.callCopy csq crm else F
     pure ("ok " ++ showSig ((F'.signal { sqFreq := cs }).map some) key)
 
+/-! ### lists of systems -/
+
+def joinBar (l : List String) : String := String.join (l.map fun x => " | " ++ x)
+
+/-- `trdlist fn k (p m n)*k T inp out u1d sq tr rx <tail>`: the model of the call with a list
+of `k` systems; every system's raw arrays are filled with positions of their own. -/
+def hTrdList : P String := do
+  let fn ← pFn
+  let dims ← pList (do let p ← pNat; let m ← pNat; let n ← pNat; pure (p, m, n))
+  let T ← pNat
+  let inp ← pONat; let out ← pONat
+  let u1d ← pBool
+  let sq ← pSq; let tr ← pBool; let rx ← pOBool
+  let tl ← pTail
+  -- the raw arrays each system's simulation hands over (shapes from `rawSpec`; a system for
+  -- which `rawSpec` raises gets empty arrays: `timeResponse` raises the same error first)
+  let systems : List (SysRaw Nat) := dims.map fun (p, m, n) =>
+    match rawSpec fn p m n T inp out u1d with
+    | .ok spec => ⟨p, m, n, iota offY spec.yShape, spec.xShape.map (iota offX),
+                   spec.uShape.map (iota offU)⟩
+    | .error _ => ⟨p, m, n, iota offY [], none, none⟩
+  match timeResponseList fn T inp out u1d (iota offT [T]) systems sq tr rx tl.cfg with
+  | .error e => pure (showErr e)
+  | .ok rs =>
+    let rs' := rs.map fun r => if tl.useCall then r.call tl.callSq tl.callTr tl.callRx else r
+    pure (s!"ok {rs'.length}" ++ joinBar (rs'.map fun r => showTRD r tl.cfg))
+
+/-- `useCall callSq callRm` -/
+def pFCall : P (Bool × Sq × Option Bool) := do
+  let useCall ← pBool
+  let csq ← pSq
+  let crm ← pOBool
+  pure (useCall, csq, crm)
+
+/-- `frlist k (p m)*k N sq cfgSq useCall callSq callRm` -/
+def hFrList : P String := do
+  let dims ← pList (do let p ← pNat; let m ← pNat; pure (p, m))
+  let N ← pNat
+  let sq ← pSq
+  let cs ← pSq
+  let (useCall, csq, crm) ← pFCall
+  let systems : List (SysHorner Nat) := dims.map fun (p, m) => ⟨p, m, iota 0 [p, m, N]⟩
+  match freqResponseList N systems sq { sqFreq := cs } with
+  | .error e => pure (showErr e)
+  | .ok Fs =>
+    let Fs' := Fs.map fun F => if useCall then F.callCopy csq crm else F
+    pure (s!"ok {Fs'.length}" ++ joinBar (Fs'.map fun F => showFRD F { sqFreq := cs }))
+
+/-! ### histories -/
+
+def pTObs : P TObs := do
+  match (← tok) with
+  | "time" => pure .time | "outputs" => pure .outputs | "states" => pure .states
+  | "inputs" => pure .inputs | "iter" => pure .iter | "len" => pure .len
+  | "get0" => pure (.get 0) | "get1" => pure (.get 1) | "get2" => pure (.get 2)
+  | "get3" => pure (.get 3)
+  | t => throw s!"tobs:{t}"
+
+/-- `R j obs | C j sq tr rx | S j sq | ST j b | SR j b | G sq` -/
+def pTStep : P TStep := do
+  match (← tok) with
+  | "R" => let j ← pNat; let o ← pTObs; pure (.read j o)
+  | "C" => let j ← pNat; let sq ← pOSq; let tr ← pOBool; let rx ← pOBool
+           pure (.copy j ⟨sq, tr, rx⟩)
+  | "S" => let j ← pNat; let s ← pSq; pure (.set j (.squeeze s))
+  | "ST" => let j ← pNat; let b ← pBool; pure (.set j (.transpose b))
+  | "SR" => let j ← pNat; let b ← pBool; pure (.set j (.returnX b))
+  | "G" => let s ← pSq; pure (.config s)
+  | t => throw s!"tstep:{t}"
+
+def showTReading : TReading Nat → String
+  | .arr r => "arr " ++ showOpt r
+  | .tuple (.ok l) => s!"tuple {l.length}" ++ String.join (l.map fun o => " " ++ showOpt (.ok o))
+  | .tuple (.error e) => "tuple E " ++ toString e
+  | .nat n => s!"nat {n}"
+
+/-- `… H <n> <step>*n`: run the history on the response object just built (object 0). -/
+def finishTHist (r : Except Err (TRD Nat)) (tl : Tail) : P String := do
+  let h ← tok
+  if h != "H" then throw s!"H expected:{h}"
+  let steps ← pList pTStep
+  match r with
+  | .error e => pure (showErr e)
+  | .ok r =>
+    let r' := if tl.useCall then r.call tl.callSq tl.callTr tl.callRx else r
+    match HState.run (trdOps Nat) ⟨[r'], tl.cfg⟩ steps with
+    | .error e => pure (showErr e)
+    | .ok (rds, _) => pure (s!"ok {rds.length}" ++ joinBar (rds.map showTReading))
+
+/-- `hist <trd arguments…> H n steps…` -/
+def hHist : P String := do
+  let fn ← pFn
+  let p ← pNat; let m ← pNat; let n ← pNat; let T ← pNat
+  let inp ← pONat; let out ← pONat
+  let u1d ← pBool
+  let sq ← pSq; let tr ← pBool; let rx ← pOBool
+  let tl ← pTail
+  match rawSpec fn p m n T inp out u1d with
+  | .error e => let _ ← tok; let _ ← pList pTStep; pure (showErr e)
+  | .ok spec =>
+    let r := timeResponse fn p m n T inp out u1d (iota offT [T]) (iota offY spec.yShape)
+      (spec.xShape.map (iota offX)) (spec.uShape.map (iota offU)) sq tr rx tl.cfg
+    finishTHist r tl
+
+/-- `histctor <ctor arguments…> H n steps…` -/
+def hHistCtor : P String := do
+  let ts ← pShape; let ys ← pShape; let xs ← pOShape; let us ← pOShape
+  let siso ← pOBool
+  let tr ← pBool; let rx ← pBool; let sq ← pSq; let multi ← pBool
+  let tl ← pTail
+  let r := TRD.init (iota offT ts) (iota offY ys) (xs.map (iota offX)) (us.map (iota offU))
+    siso tr rx sq multi
+  finishTHist r tl
+
+def pFObs : P FObs := do
+  match (← tok) with
+  | "magnitude" => pure .magnitude | "phase" => pure .phase | "complex" => pure .complex
+  | "iter" => pure .iter | "frdata" => pure .frdata
+  | t => throw s!"fobs:{t}"
+
+/-- `R j obs | C j sq rm | S j sq | SM j b | G sq` -/
+def pFStep : P FStep := do
+  match (← tok) with
+  | "R" => let j ← pNat; let o ← pFObs; pure (.read j o)
+  | "C" => let j ← pNat; let sq ← pSq; let rm ← pOBool; pure (.copy j ⟨sq, rm⟩)
+  | "S" => let j ← pNat; let s ← pSq; pure (.set j (.squeeze s))
+  | "SM" => let j ← pNat; let b ← pBool; pure (.set j (.returnMagphase b))
+  | "G" => let s ← pSq; pure (.config s)
+  | t => throw s!"fstep:{t}"
+
+def showFReading : FReading Nat → String
+  | .item r => "item " ++ showItemRes r
+  | .tuple (.ok l) => s!"tuple {l.length}" ++ String.join (l.map fun o => " " ++ showItem o)
+  | .tuple (.error e) => "tuple E " ++ toString e
+  | .raw a => "raw " ++ showArr a
+
+def finishFHist (F : Except Err (RespFRD Nat)) (cs : Sq) : P String := do
+  let (useCall, csq, crm) ← pFCall
+  let h ← tok
+  if h != "H" then throw s!"H expected:{h}"
+  let steps ← pList pFStep
+  match F with
+  | .error e => pure (showErr e)
+  | .ok F =>
+    let F' := if useCall then F.callCopy csq crm else F
+    match HState.run (frdOps Nat) ⟨[F'], { sqFreq := cs }⟩ steps with
+    | .error e => pure (showErr e)
+    | .ok (rds, _) => pure (s!"ok {rds.length}" ++ joinBar (rds.map showFReading))
+
+/-- `histfr p m N sq cfgSq useCall callSq callRm H n steps…` -/
+def hHistFr : P String := do
+  let p ← pNat; let m ← pNat; let N ← pNat
+  let sq ← pSq
+  let cs ← pSq
+  finishFHist (ltiFreqResp p m N (iota 0 [p, m, N]) sq { sqFreq := cs }) cs
+
+/-- `histfrd <rshape> <oshape> sq rm cfgSq useCall callSq callRm H n steps…` -/
+def hHistFrd : P String := do
+  let rs ← pShape; let os ← pShape
+  let sq ← pSq; let rm ← pBool
+  let cs ← pSq
+  finishFHist (RespFRD.init (iota 0 rs) os sq rm) cs
+
 def handle (toks : List String) : String :=
   match toks with
   | "trd" :: rest => runLine hTrd rest
@@ -287,6 +450,12 @@ def handle (toks : List String) : String :=
   | "key" :: rest => runLine hKey rest
   | "keytrd" :: rest => runLine hKeyTrd rest
   | "keyfr" :: rest => runLine hKeyFr rest
+  | "trdlist" :: rest => runLine hTrdList rest
+  | "frlist" :: rest => runLine hFrList rest
+  | "hist" :: rest => runLine hHist rest
+  | "histctor" :: rest => runLine hHistCtor rest
+  | "histfr" :: rest => runLine hHistFr rest
+  | "histfrd" :: rest => runLine hHistFrd rest
   | t :: _ => s!"bad-op c18:{t}"
   | [] => "bad-op c18:empty"
 
